@@ -1039,7 +1039,11 @@ class Executor:
             shp=[self.concrete_int(s,"zeros shape") for s in shp]
             n=1
             for s in shp: n*=s
-            st=Store(); state.heap[st.id]=tuple(z3.BitVecVal(0,dty.bitwidth) for _ in range(n))
+            if is_float(dty):
+                zero = z3.RealVal(0) if self.fpmode=='real' else z3.FPVal(0.0, FPS)
+            else:
+                zero = z3.BitVecVal(0,dty.bitwidth)
+            st=Store(); state.heap[st.id]=tuple(zero for _ in range(n))
             return Arr(st.id,dty,shp)
         if f is np.all:
             x=a[0]; h=state.heap[x.sid]
